@@ -273,6 +273,9 @@ impl Prop for C09 {
     fn id(&self) -> &'static str {
         "C09"
     }
+    fn fuzz_target(&self) -> Option<&'static str> {
+        Some("fz_choices")
+    }
     fn stream_len(&self, _tier: Tier) -> usize {
         500
     }
